@@ -158,8 +158,30 @@ def run(res, tier, seed, broken_model):
         body = "; ".join(A.src(s) for s in stmts) + "; (a, b, c, d(x), e)"
         rlines.append("reexec\tstd\t%s\t%s" % (esc_field(setup), esc_field(body)))
         rmeta.append(body)
+    # every construct that creates mutable state when it is EVALUATED - a cell, an iterator's cursor, the placeholder an
+    # exhausted iterator hands out - must create it afresh on each execution of the same Code (nothing of it may be
+    # built once at parse time and kept in the Code)
+    fresh = [
+        "c := mut 0; c += 1; *c",
+        "it := [1, 2, 3]~; it(); it()",
+        "it := [mut 5]~; it(); (m, c) := it(); c += 1; (m, *c)",
+        "it := [mut 5]~ ? mut int; first := it(); (more, cell) := it(); cell += 1; (*(first.1), more, *cell)",
+        "it := [mut 5, 2]~ ? mut int|int; it(); it(); (more, cell) := it(); r := if c: mut int = cell { c += 1; *c } else { cell }; (more, r)",
+        "it := [mut 1]~ @ (c: mut int) -> mut int { return c }; it(); (m, d) := it(); d += 1; (m, *d)",
+        "it := [mut 1]~ ? (c: mut int) -> bool { return true }; it(); (m, d) := it(); d += 1; (m, *d)",
+        "f := () -> int { c := mut 0; c += 1; return *c }; (f(), f())",
+        "f := () -> int { it := [mut 5]~ ? mut int; it(); cell := it().1; cell += 1; return *cell }; (f(), f())",
+        "a := [mut 0; 2]; a[0] += 1; (*a[0], *a[1])",
+        "p := [mut 1, mut 2]~ \\ (c: mut int) -> bool { return *c > 1 }; (p.0)[0] += 10; (*(p.0)[0], *(p.1)[0])",
+        "s := [mut 1, mut 2]~ $]; s[0] += 1; (*s[0], *s[1])",
+        "m := mod { k := mut 0 }; m.k += 1; *m.k",
+        "g := () -> mut int { return mut 7 }; c := g(); c += 1; (*c, *g())",
+    ]
+    for body in fresh:
+        rlines.append("reexec\tstd\t\t%s" % esc_field(body))
+        rmeta.append(body)
     rout = harness_run(rlines)
-    res.streams["reexec"] = dict(programs=len(rlines))
+    res.streams["reexec"] = dict(programs=len(rlines), fresh_state_templates=len(fresh))
     for body, o in zip(rmeta, rout):
         res.evaluations += 1
         s = sexp_parse(o)
